@@ -20,6 +20,7 @@ Definition spec_step (s : sstate) (o : op) : sstate :=
   | Create i v => if is_nil i then s else match sval s i with Some _ => s | None => sset s i (Some v) end
   | Update i v => match sval s i with Some _ => sset s i (Some v) | None => s end
   | Delete i => match sval s i with Some _ => sset s i None | None => s end
+  | InitErr _ => s
   | Init seeds =>
       if sinit s then s
       else if negb (valid_seeds seeds) then s
@@ -44,9 +45,12 @@ Definition no_foreign (g : cfg) (c : content) : Prop :=
 
 Definition prefix_of {A} (p l : list A) : Prop := exists r, l = p ++ r.
 
-(* lifetimes that all start with Init of the same seeds *)
+(* an Init call that fails (and must change nothing) on an uninitialised store *)
+Definition failing_init (o : op) : Prop :=
+  match o with InitErr _ => True | Init s => valid_seeds s = false | _ => False end.
+(* lifetimes that all start with any number of failing Init calls followed by Init of the same seeds *)
 Definition starts_with_init (seeds : list (id * value)) (l : lifetime) : Prop :=
-  exists w, fst (fst l) = Init seeds :: w.
+  exists f w, fst (fst l) = f ++ Init seeds :: w /\ Forall failing_init f.
 Fixpoint creates (i : id) (ops : list op) : bool :=
   match ops with
   | [] => false
